@@ -818,7 +818,10 @@ def make_fault_matrix_script(rng, name, kind=None):
         elif op in ("ins_absent", "ins_absent_full"):
             g.emit(f"insert {ab} {g.st()} {g.val()}")
         elif op == "entry_closure":
-            # the closure handed to an entry method panics (it owns the value it was given)
+            # the closure handed to an entry method panics (it owns the value it was given); on an absent
+            # key (one time in four) the closure must not run at all
+            if rng.random() < 0.25:
+                pres = ab
             g.emit(rng.choice([f"entry_replace {pres} {g.st()} some {g.val()}", f"entry_replace {pres} {g.st()} none 0",
                                f"entry_and_replace {pres} {g.st()} some {g.val()}", f"raw_replace {pres} {g.st()} some {g.val()}",
                                f"raw_and_replace {pres} {g.st()} none 0", f"entry_and_modify {pres} {g.st()} 1 {g.val()}"]))
